@@ -249,9 +249,17 @@ def install_stubs(stubs):
         if name == "hmac512":
             U.OVERRIDES[(name,) + tuple(bytes.fromhex(a) for a in args)] = bytes.fromhex(out)
         if name == "hmac512*":
-            # chosen-output PRF: left half fixed, right half from the real HMAC
-            il = bytes.fromhex(out)
-            U.WILDCARD["hmac512"] = (lambda il: (lambda k, m: il + __import__("hmac").new(k, m, "sha512").digest()[32:]))(il)
+            # chosen-output PRF: `out` = hex of the forced left half, or "L:<hex>" / "R:<hex>" to force one half;
+            # the other half comes from the real HMAC
+            side, hx = ("L", out) if ":" not in out else out.split(":", 1)
+            half = bytes.fromhex(hx)
+
+            def mk(side, half):
+                def fn(k, m):
+                    real = __import__("hmac").new(k, m, "sha512").digest()
+                    return half + real[32:] if side == "L" else real[:32] + half
+                return fn
+            U.WILDCARD["hmac512"] = mk(side, half)
     real = helper.hmac_sha512
     saved = [(m, m.hmac_sha512) for m in (helper, bip32, bip85) if hasattr(m, "hmac_sha512")]
 
